@@ -201,6 +201,8 @@ pub fn c19() -> Result<u64, String> {
     for len in [1usize, 2, 3, 10, 300] { for pos in [0, len / 2, len - 1] { for c in COMPS {
         n += 1;
         let mut es = gen_dir(&mut r, len, false); es[pos].len = 0;
+        // the entry with length 0 is a tile entry or (every other case) a leaf-directory pointer: both are refused
+        if (len + pos) % 2 == 1 { es[pos].run = 0; }
         let d = Directory::from(to_entries(&es));
         match quiet(|| d.to_writer(&mut Cursor::new(Vec::new()), c)) { Ok(Err(_)) => {}, Ok(Ok(())) => return Err(format!("serialiser accepted a length-0 entry at index {pos} of {len} ({c:?})")), Err(p) => return Err(format!("serialiser panicked on a length-0 entry: {p}")) }
         // craft the encoding by hand (dir_enc does not care about len 0)
@@ -209,7 +211,7 @@ pub fn c19() -> Result<u64, String> {
     } } }
     // metadata that is JSON but not an object; unknown internal compression
     let tiles = gen_tiles(&mut r, 3, 2);
-    for c in COMPS { for v in ["null", "true", "0", "1.5", "\"x\"", "[]", "[{}]"] {
+    for c in COMPS { for v in ["null", "true", "0", "1.5", "\"x\"", "[]", "[{}]", "7", "-1", "\"\"", "42", " 1"] {
         n += 1;
         let (mut b, _) = write_at(build(&tiles, c, &Default::default()), 0).map_err(|e| e.to_string())?;
         let h = parse_header(&b)?;
@@ -624,7 +626,9 @@ pub fn c09() -> Result<u64, String> {
     for cut in 0..127 { n += 1; if Header::from_bytes(&good[..cut]).is_ok() { return Err(format!("a header truncated to {cut} bytes was accepted")); }
         if block_on(Header::from_async_reader(&mut futures::io::Cursor::new(good[..cut].to_vec()))).is_ok() { return Err(format!("async: a header truncated to {cut} bytes was accepted")); } }
     for (pos, range) in [(97usize, 5u16..256), (98, 5..256), (99, 6..256), (7, 0..3), (7, 4..256), (0, 0..80), (6, 0..115)] { for v in range { n += 1; let mut b = good.clone(); if b[pos] == v as u8 { continue; } b[pos] = v as u8;
-        if Header::from_bytes(&b).is_ok() { return Err(format!("header with byte {pos} = {v} (bad magic/version/enum code) was accepted")); } } }
+        if Header::from_bytes(&b).is_ok() { return Err(format!("header with byte {pos} = {v} (bad magic/version/enum code) was accepted")); }
+        if Header::from_reader(&mut Cursor::new(b.clone())).is_ok() { return Err(format!("from_reader: header with byte {pos} = {v} (bad magic/version/enum code) was accepted")); }
+        if block_on(Header::from_async_reader(&mut futures::io::Cursor::new(b.clone()))).is_ok() { return Err(format!("ASYNC reader: header with byte {pos} = {v} (bad magic/version/enum code) was accepted")); } } }
     for pos in [97usize, 98, 99] { for v in 0..(if pos == 99 { 6 } else { 5 }) { let mut b = good.clone(); b[pos] = v; if Header::from_bytes(&b).is_err() { return Err(format!("valid enum code {v} at byte {pos} rejected")); } } }
     // chunked reader (short reads)
     struct Chunked(Vec<u8>, usize);
@@ -743,6 +747,30 @@ pub fn c13() -> Result<u64, String> {
             for (id, v) in &tiles { if pm.get_tile_by_id(*id).map_err(|e| format!("lookup through short reads {sched:?}: {e}"))?.as_ref() != Some(v) { return Err(format!("tile {id} differs when read through short reads {sched:?} ({c:?})")); } }
             let h = Header::from_reader(&mut Frag { inner: Cursor::new(want.clone()), sched: sched.clone(), k: 0 }).map_err(|e| format!("header through short reads {sched:?}: {e}"))?;
             if h.num_addressed_tiles != tiles.len() as u64 { return Err("header differs through short reads".into()); }
+        }
+    }
+    {   // compressed leaf directories read through very small fragments (a decoder has not consumed its trailer when the last entry is out)
+        let tiles = big_tiles(5000);
+        for c in [Compression::GZip, Compression::ZStd] {
+            let (want, _) = write_at(build(&tiles, c, &Default::default()), 0).map_err(|e| e.to_string())?;
+            for sched in [vec![1usize], vec![7]] { n += 1;
+                let rd = Frag { inner: Cursor::new(want.clone()), sched: sched.clone(), k: 0 };
+                let mut pm = PMTiles::from_reader(rd).map_err(|e| format!("open of a {c:?} archive with leaf directories through short reads {sched:?}: {e}"))?;
+                if pm.num_tiles() != tiles.len() { return Err(format!("a {c:?} archive with leaf directories opened through short reads {sched:?} has {} tiles instead of {}", pm.num_tiles(), tiles.len())); }
+                for (id, v) in tiles.iter().step_by(700) { if pm.get_tile_by_id(*id).map_err(|e| e.to_string())?.as_ref() != Some(v) { return Err(format!("tile {id} differs through short reads {sched:?} ({c:?})")); } }
+            }
+        }
+    }
+    {   // async stream that delivers a few bytes per poll (and is sometimes Pending): header and archive as on an in-memory buffer
+        let tiles = gen_tiles(&mut r, 6, 2);
+        for c in COMPS { let (b, _) = write_at(build(&tiles, c, &Default::default()), 0).map_err(|e| e.to_string())?;
+            for chunk in [1usize, 2, 5, 6, 7, 50] { n += 1;
+                let hs = Header::from_bytes(&b[..127]).map_err(|e| e.to_string())?;
+                let ha = block_on(Header::from_async_reader(&mut AChunk { inner: futures::io::Cursor::new(b.clone()), chunk, tick: 0 })).map_err(|e| format!("async header through a stream delivering {chunk} bytes per poll: {e}"))?;
+                if ha.num_addressed_tiles != hs.num_addressed_tiles || ha.tile_data_offset != hs.tile_data_offset || ha.max_zoom != hs.max_zoom { return Err(format!("async header through a stream delivering {chunk} bytes per poll differs")); }
+                let mut a = block_on(PMTiles::from_async_reader(AChunk { inner: futures::io::Cursor::new(b.clone()), chunk, tick: 0 })).map_err(|e| format!("async open through a stream delivering {chunk} bytes per poll ({c:?}): {e}"))?;
+                for (k2, v) in &tiles { if block_on(a.get_tile_by_id_async(*k2)).map_err(|e| e.to_string())?.as_ref() != Some(v) { return Err(format!("async lookup of tile {k2} through a stream delivering {chunk} bytes per poll differs ({c:?})")); } }
+            }
         }
     }
     {   // an archive with leaf directories through a stream that accepts short writes / delivers short reads
